@@ -288,7 +288,7 @@ def replay(cex):
 
 def main(tier):
     run = Run(PID, tier)
-    second = 'cvc5' if tier == 'thorough' else None
+    second = None          # set per obligation below
     specs = []
     nmax = 6 if tier == 'quick' else 8
     for k, p in GRID:
@@ -308,6 +308,12 @@ def main(tier):
     for nb in (2, 3, 4):
         for mode in ('rt', 'rb'):
             specs.append(('props.C06', 'ob_compression_case', dict(nbytes=nb, mode=mode)))
+    if tier == 'thorough':
+        # cross-check with cvc5 where affordable (two symbolic executions per obligation make these formulas large)
+        for sp in specs:
+            tot = sum(sp[2].get('lens', [sp[2].get('n', 0)]))
+            if 'second' in sp[2] or sp[1] != 'ob_compression_case':
+                sp[2]['second'] = 'cvc5' if tot <= 5 else ('z3bin' if tot <= 7 else None)
     specs.sort(key=lambda s: -(sum(s[2].get('lens', [s[2].get('n', 0)])) * 10))
     results = run_pool(specs, budget_s=3000 if tier == 'thorough' else 900)
     run.add_results(results, rung=tier)
